@@ -1,8 +1,582 @@
 //! Verification hook (compiled only with `--cfg quinn_rs_quinn_verif`).
+//!
+//! Component: `routing` — a REAL [`Endpoint`] (its `ConnectionIndex`, the `connections` slab,
+//! `connect`, `handle`, `accept`, `refuse`, `ignore`, `handle_event`) driven through its own
+//! methods.  The cryptography is replaced by null keys and a session that never progresses (so no
+//! certificates / AEAD are needed and a case costs microseconds); connection IDs come from an
+//! oracle stream carried by the operations, so that collisions can be forced.
+//!
+//! Encoding (one observation per op).  `remote(r)` = `10.0.0.r:(1000+r)` (`r = 0`: `0.0.0.0:0`),
+//! `local(l)` = `None` for 0, else `192.168.1.l`; `token(t)` = 16 bytes, byte `i` = bit `i` of `t`
+//! (only 0/1 bytes: they are also valid PADDING/PING frames at the tail of an Initial payload).
+//! `cands` = `ncand` CIDs of `cid_len` bytes each: the CIDs the generator returns during this op;
+//! when it runs dry it returns the all-`0xEE` CID, and panics at the 65th dry call of one op
+//! (bounding the `new_cid` loop, which otherwise never terminates).
+//!
+//!   [0, cid_len, pref]                      new endpoint (server config present; `pref` = preferred
+//!                                           address configured)                        -> [0]
+//!   [1, r, fail, ncand, cands..]            connect(remote(r)); `fail` = the crypto layer rejects the
+//!                                           server name            -> [0, ch] | [1, e]  e: 1 CidsExhausted
+//!                                           2 InvalidRemoteAddress 3 UnsupportedVersion 4 InvalidServerName
+//!   [2, kind, r, l, t, bad, dlen, dcid..]   handle(datagram): kind 0 short header (dlen = cid_len),
+//!                                           1 Initial, 2 0-RTT, 3 Handshake; last 16 bytes = token(t);
+//!                                           Initial only: bad = 1 illegal frame in the payload,
+//!                                           2 datagram shorter than 1200
+//!                                           -> [0, incoming_buffer_bytes] dropped or buffered
+//!                                            | [1, ch] handed to connection | [2, k] k-th Incoming created
+//!                                            | [3, long] response (long = 1: long header, 0: stateless reset)
+//!   [3, k, stale, ncand, cands..]           accept(k-th Incoming), `stale`: 31 s later
+//!                                           -> [0, ch] | [1, e]  e: 1 TimedOut 2 CidsExhausted 3 TransportError
+//!   [4, k, mode]                            refuse (0) / ignore (1) the k-th Incoming   -> [0]
+//!   [5, ch, n, ncand, cands..]              NeedIdentifiers(n)   -> [0, m, seq, cid.., seq, cid..]
+//!   [6, ch, seq, allow_more, ncand, cands..] RetireConnectionId  -> [0] | [1, seq', cid'..]
+//!   [7, ch, r, t]                           ResetToken(remote(r), token(t))            -> [0]
+//!   [8, ch]                                 Drained                                   -> [0, open_connections]
+//! Ill-formed op / unknown Incoming / no endpoint yet: [-1].
 #![allow(missing_docs, dead_code, unused_imports, unreachable_pub, clippy::all)]
 use super::{Ops, Outs};
+use crate::{
+    ClientConfig, ConnectError, ConnectionError, ConnectionHandle, ConnectionId,
+    ConnectionIdGenerator, DatagramEvent, Duration, Endpoint, EndpointConfig, EndpointEvent,
+    Incoming, Instant, ResetToken, ServerConfig, Side, TransportError,
+    crypto::{self, CryptoError, ExportKeyingMaterialError, KeyPair, Keys, UnsupportedVersion},
+    shared::{ConnectionEventInner, EndpointEventInner},
+    transport_parameters::TransportParameters,
+};
+use bytes::BytesMut;
+use std::{
+    collections::VecDeque,
+    net::{IpAddr, Ipv4Addr, SocketAddr, SocketAddrV4},
+    sync::{Arc, Mutex},
+};
+
+// ---------------------------------------------------------------- null cryptography
+struct NullHeaderKey;
+impl crypto::HeaderKey for NullHeaderKey {
+    fn decrypt(&self, _pn_offset: usize, _packet: &mut [u8]) {}
+    fn encrypt(&self, _pn_offset: usize, _packet: &mut [u8]) {}
+    fn sample_size(&self) -> usize {
+        16
+    }
+}
+
+struct NullPacketKey;
+impl crypto::PacketKey for NullPacketKey {
+    fn encrypt(&self, _packet: u64, _buf: &mut [u8], _header_len: usize) {}
+    fn decrypt(
+        &self,
+        _packet: u64,
+        _header: &[u8],
+        _payload: &mut BytesMut,
+    ) -> Result<(), CryptoError> {
+        Ok(())
+    }
+    fn tag_len(&self) -> usize {
+        16
+    }
+    fn confidentiality_limit(&self) -> u64 {
+        u64::MAX
+    }
+    fn integrity_limit(&self) -> u64 {
+        u64::MAX
+    }
+}
+
+fn null_keys() -> Keys {
+    Keys {
+        header: KeyPair {
+            local: Box::new(NullHeaderKey),
+            remote: Box::new(NullHeaderKey),
+        },
+        packet: KeyPair {
+            local: Box::new(NullPacketKey),
+            remote: Box::new(NullPacketKey),
+        },
+    }
+}
+
+/// A session that never makes progress: enough for `Connection::new` and a first packet that
+/// carries no CRYPTO frames.
+struct NullSession;
+impl crypto::Session for NullSession {
+    fn initial_keys(&self, _dst_cid: ConnectionId, _side: Side) -> Keys {
+        null_keys()
+    }
+    fn handshake_data(&self) -> Option<Box<dyn std::any::Any>> {
+        None
+    }
+    fn peer_identity(&self) -> Option<Box<dyn std::any::Any>> {
+        None
+    }
+    fn early_crypto(&self) -> Option<(Box<dyn crypto::HeaderKey>, Box<dyn crypto::PacketKey>)> {
+        None
+    }
+    fn early_data_accepted(&self) -> Option<bool> {
+        None
+    }
+    fn is_handshaking(&self) -> bool {
+        true
+    }
+    fn read_handshake(&mut self, _buf: &[u8]) -> Result<bool, TransportError> {
+        Ok(false)
+    }
+    fn transport_parameters(&self) -> Result<Option<TransportParameters>, TransportError> {
+        Ok(None)
+    }
+    fn write_handshake(&mut self, _buf: &mut Vec<u8>) -> Option<Keys> {
+        None
+    }
+    fn next_1rtt_keys(&mut self) -> Option<KeyPair<Box<dyn crypto::PacketKey>>> {
+        None
+    }
+    fn is_valid_retry(&self, _orig_dst_cid: ConnectionId, _header: &[u8], _payload: &[u8]) -> bool {
+        false
+    }
+    fn export_keying_material(
+        &self,
+        _output: &mut [u8],
+        _label: &[u8],
+        _context: &[u8],
+    ) -> Result<(), ExportKeyingMaterialError> {
+        Err(ExportKeyingMaterialError)
+    }
+}
+
+/// Like the rustls provider, rejects a malformed server name (here: the literal "bad name").
+struct NullClientCrypto;
+impl crypto::ClientConfig for NullClientCrypto {
+    fn start_session(
+        self: Arc<Self>,
+        _version: u32,
+        server_name: &str,
+        _params: &TransportParameters,
+    ) -> Result<Box<dyn crypto::Session>, ConnectError> {
+        if server_name == "bad name" {
+            return Err(ConnectError::InvalidServerName(server_name.into()));
+        }
+        Ok(Box::new(NullSession))
+    }
+}
+
+struct NullServerCrypto;
+impl crypto::ServerConfig for NullServerCrypto {
+    fn initial_keys(&self, _version: u32, _dst_cid: ConnectionId) -> Result<Keys, UnsupportedVersion> {
+        Ok(null_keys())
+    }
+    fn retry_tag(&self, _version: u32, _orig_dst_cid: ConnectionId, _packet: &[u8]) -> [u8; 16] {
+        [0; 16]
+    }
+    fn start_session(
+        self: Arc<Self>,
+        _version: u32,
+        _params: &TransportParameters,
+    ) -> Box<dyn crypto::Session> {
+        Box::new(NullSession)
+    }
+}
+
+struct NullHmac;
+impl crypto::HmacKey for NullHmac {
+    fn sign(&self, data: &[u8], signature_out: &mut [u8]) {
+        for (i, b) in signature_out.iter_mut().enumerate() {
+            *b = data.get(i % data.len().max(1)).copied().unwrap_or(0) ^ 0x5a;
+        }
+    }
+    fn signature_len(&self) -> usize {
+        32
+    }
+    fn verify(&self, _data: &[u8], _signature: &[u8]) -> Result<(), CryptoError> {
+        Err(CryptoError)
+    }
+}
+
+struct NullAead;
+impl crypto::AeadKey for NullAead {
+    fn seal(&self, _data: &mut Vec<u8>, _additional_data: &[u8]) -> Result<(), CryptoError> {
+        Ok(())
+    }
+    fn open<'a>(
+        &self,
+        _data: &'a mut [u8],
+        _additional_data: &[u8],
+    ) -> Result<&'a mut [u8], CryptoError> {
+        Err(CryptoError)
+    }
+}
+
+struct NullTokenKey;
+impl crypto::HandshakeTokenKey for NullTokenKey {
+    fn aead_from_hkdf(&self, _random_bytes: &[u8]) -> Box<dyn crypto::AeadKey> {
+        Box::new(NullAead)
+    }
+}
+
+// ---------------------------------------------------------------- oracle CID generator
+struct GenState {
+    cid_len: usize,
+    queue: VecDeque<Vec<u8>>,
+    dry: u32,
+}
+
+struct OracleGen(Arc<Mutex<GenState>>);
+
+impl ConnectionIdGenerator for OracleGen {
+    fn generate_cid(&mut self) -> ConnectionId {
+        let mut g = self.0.lock().unwrap();
+        if g.cid_len == 0 {
+            return ConnectionId::new(&[]);
+        }
+        if let Some(c) = g.queue.pop_front() {
+            return ConnectionId::new(&c);
+        }
+        g.dry += 1;
+        if g.dry > 64 {
+            let n = g.dry;
+            drop(g);
+            panic!("verif: CID oracle ran dry ({n} calls): new_cid does not terminate");
+        }
+        ConnectionId::new(&vec![0xEE; g.cid_len])
+    }
+    fn cid_len(&self) -> usize {
+        self.0.lock().unwrap().cid_len
+    }
+    fn cid_lifetime(&self) -> Option<Duration> {
+        None
+    }
+}
+
+// ---------------------------------------------------------------- the simulation
+struct Sim {
+    ep: Endpoint,
+    genstate: Arc<Mutex<GenState>>,
+    cid_len: usize,
+    base: Instant,
+    incomings: Vec<Option<Incoming>>,
+    conns: Vec<Option<crate::Connection>>,
+}
+
+fn remote(r: i128) -> SocketAddr {
+    if r == 0 {
+        SocketAddr::V4(SocketAddrV4::new(Ipv4Addr::new(0, 0, 0, 0), 0))
+    } else {
+        SocketAddr::V4(SocketAddrV4::new(
+            Ipv4Addr::new(10, 0, ((r >> 8) & 255) as u8, (r & 255) as u8),
+            (1000 + (r & 0x3fff)) as u16,
+        ))
+    }
+}
+
+fn local(l: i128) -> Option<IpAddr> {
+    if l == 0 {
+        None
+    } else {
+        Some(IpAddr::V4(Ipv4Addr::new(192, 168, 1, (l & 255) as u8)))
+    }
+}
+
+fn token(t: i128) -> [u8; 16] {
+    let mut o = [0u8; 16];
+    for (i, b) in o.iter_mut().enumerate() {
+        *b = ((t >> i) & 1) as u8;
+    }
+    o
+}
+
+fn cid_out(o: &mut Vec<i128>, c: &ConnectionId) {
+    o.extend(c.iter().map(|x| *x as i128));
+}
+
+impl Sim {
+    fn new(cid_len: usize, pref: bool) -> Self {
+        let genstate = Arc::new(Mutex::new(GenState {
+            cid_len,
+            queue: VecDeque::new(),
+            dry: 0,
+        }));
+        let mut cfg = EndpointConfig::new(Arc::new(NullHmac));
+        let gs = genstate.clone();
+        cfg.cid_generator(Arc::new(move || -> Box<dyn ConnectionIdGenerator> {
+            Box::new(OracleGen(gs.clone()))
+        }));
+        cfg.grease_quic_bit(false);
+        cfg.min_reset_interval(Duration::ZERO);
+        cfg.rng_seed(Some([7; 32]));
+        let mut server = ServerConfig::new(Arc::new(NullServerCrypto), Arc::new(NullTokenKey));
+        if pref {
+            server.preferred_address_v4(Some(SocketAddrV4::new(Ipv4Addr::new(10, 9, 9, 9), 999)));
+        }
+        let ep = Endpoint::new(Arc::new(cfg), Some(Arc::new(server)), false);
+        Self {
+            ep,
+            genstate,
+            cid_len,
+            base: Instant::now(),
+            incomings: Vec::new(),
+            conns: Vec::new(),
+        }
+    }
+
+    /// Load this op's CID candidates; `None` if the op is ill-formed.
+    fn load(&self, rest: &[i128]) -> Option<()> {
+        let mut g = self.genstate.lock().unwrap();
+        g.queue.clear();
+        g.dry = 0;
+        if rest.is_empty() {
+            return None;
+        }
+        let n = rest[0];
+        if n < 0 || rest.len() as i128 != 1 + n * self.cid_len as i128 {
+            return None;
+        }
+        if self.cid_len > 0 {
+            for c in rest[1..].chunks(self.cid_len) {
+                g.queue.push_back(c.iter().map(|x| *x as u8).collect());
+            }
+        }
+        Some(())
+    }
+
+    fn unload(&self) {
+        let mut g = self.genstate.lock().unwrap();
+        g.queue.clear();
+        g.dry = 0;
+    }
+
+    fn keep(&mut self, ch: ConnectionHandle, conn: crate::Connection) {
+        if self.conns.len() <= ch.0 {
+            self.conns.resize_with(ch.0 + 1, || None);
+        }
+        self.conns[ch.0] = Some(conn);
+    }
+
+    fn datagram(&self, kind: i128, r: i128, l: i128, t: i128, bad: i128, dcid: &[u8]) -> BytesMut {
+        let mut d: Vec<u8> = Vec::new();
+        let total;
+        if kind == 0 {
+            total = 100;
+            d.push(0x40);
+            d.extend_from_slice(dcid);
+        } else {
+            total = if kind == 1 && bad == 2 { 600 } else { 1200 };
+            d.push(match kind {
+                1 => 0xC0,
+                2 => 0xD0,
+                _ => 0xE0,
+            });
+            d.extend_from_slice(&1u32.to_be_bytes());
+            d.push(dcid.len() as u8);
+            d.extend_from_slice(dcid);
+            d.extend_from_slice(&[4, r as u8, l as u8, 0x11, 0x22]); // source CID
+            if kind == 1 {
+                d.push(0); // token length
+            }
+            let rest = total - d.len() - 2;
+            d.push(0x40 | ((rest >> 8) as u8));
+            d.push((rest & 0xff) as u8);
+            d.push(0); // packet number (1 byte)
+            if kind == 1 && bad == 1 {
+                d.extend_from_slice(&[0x08, 0x00]); // STREAM frame: illegal in an Initial packet
+            } else {
+                d.push(0x01); // PING
+            }
+        }
+        d.resize(total - 16, 0);
+        d.extend_from_slice(&token(t));
+        BytesMut::from(&d[..])
+    }
+
+    fn step(&mut self, op: &[i128]) -> Vec<i128> {
+        let now = self.base;
+        match op[0] {
+            1 if op.len() >= 4 => {
+                if self.load(&op[3..]).is_none() {
+                    return vec![-1];
+                }
+                let mut cc = ClientConfig::new(Arc::new(NullClientCrypto));
+                cc.initial_dst_cid_provider(Arc::new(|| ConnectionId::new(&[0xC1; 8])));
+                let name = if op[2] != 0 { "bad name" } else { "host" };
+                match self.ep.connect(now, cc, remote(op[1]), name) {
+                    Ok((ch, conn)) => {
+                        self.keep(ch, conn);
+                        vec![0, ch.0 as i128]
+                    }
+                    Err(ConnectError::CidsExhausted) => vec![1, 1],
+                    Err(ConnectError::InvalidRemoteAddress(_)) => vec![1, 2],
+                    Err(ConnectError::UnsupportedVersion) => vec![1, 3],
+                    Err(ConnectError::InvalidServerName(_)) => vec![1, 4],
+                    Err(_) => vec![1, 9],
+                }
+            }
+            2 if op.len() >= 7 => {
+                let (kind, r, l, t, bad, dlen) = (op[1], op[2], op[3], op[4], op[5], op[6]);
+                if !(0..=3).contains(&kind)
+                    || dlen < 0
+                    || dlen > 20
+                    || op.len() as i128 != 7 + dlen
+                    || (kind == 0 && dlen as usize != self.cid_len)
+                {
+                    return vec![-1];
+                }
+                let dcid: Vec<u8> = op[7..].iter().map(|x| *x as u8).collect();
+                let data = self.datagram(kind, r, l, t, bad, &dcid);
+                let mut buf = Vec::new();
+                match self.ep.handle(now, remote(r), local(l), None, data, &mut buf) {
+                    None => vec![0, self.ep.incoming_buffer_bytes() as i128],
+                    Some(DatagramEvent::ConnectionEvent(ch, _)) => vec![1, ch.0 as i128],
+                    Some(DatagramEvent::NewConnection(inc)) => {
+                        self.incomings.push(Some(inc));
+                        vec![2, self.incomings.len() as i128 - 1]
+                    }
+                    Some(DatagramEvent::Response(_)) => {
+                        vec![3, if buf.first().map_or(false, |b| b & 0x80 != 0) { 1 } else { 0 }]
+                    }
+                }
+            }
+            3 if op.len() >= 4 => {
+                if self.load(&op[3..]).is_none() {
+                    return vec![-1];
+                }
+                let k = op[1];
+                if k < 0 || k as usize >= self.incomings.len() || self.incomings[k as usize].is_none() {
+                    return vec![-1];
+                }
+                let inc = self.incomings[k as usize].take().unwrap();
+                let at = if op[2] != 0 { now + Duration::from_secs(31) } else { now };
+                let mut buf = Vec::new();
+                match self.ep.accept(inc, at, &mut buf, None) {
+                    Ok((ch, conn)) => {
+                        self.keep(ch, conn);
+                        vec![0, ch.0 as i128]
+                    }
+                    Err(e) => match e.cause {
+                        ConnectionError::TimedOut => vec![1, 1],
+                        ConnectionError::CidsExhausted => vec![1, 2],
+                        ConnectionError::TransportError(_) => vec![1, 3],
+                        _ => vec![1, 9],
+                    },
+                }
+            }
+            4 if op.len() == 3 => {
+                let k = op[1];
+                if k < 0 || k as usize >= self.incomings.len() || self.incomings[k as usize].is_none() {
+                    return vec![-1];
+                }
+                let inc = self.incomings[k as usize].take().unwrap();
+                if op[2] == 0 {
+                    let mut buf = Vec::new();
+                    let _ = self.ep.refuse(inc, &mut buf);
+                } else {
+                    self.ep.ignore(inc);
+                }
+                vec![0]
+            }
+            5 if op.len() >= 4 => {
+                if self.load(&op[3..]).is_none() || op[1] < 0 || op[2] < 0 || op[2] > 64 {
+                    return vec![-1];
+                }
+                let ch = ConnectionHandle(op[1] as usize);
+                let ev = self.ep.handle_event(
+                    ch,
+                    EndpointEvent(EndpointEventInner::NeedIdentifiers(now, op[2] as u64)),
+                );
+                match ev.map(|e| e.0) {
+                    Some(ConnectionEventInner::NewIdentifiers(ids, _)) => {
+                        let mut o = vec![0, ids.len() as i128];
+                        for id in &ids {
+                            o.push(id.sequence as i128);
+                            cid_out(&mut o, &id.id);
+                        }
+                        o
+                    }
+                    _ => vec![-2],
+                }
+            }
+            6 if op.len() >= 5 => {
+                if self.load(&op[4..]).is_none() || op[1] < 0 || op[2] < 0 {
+                    return vec![-1];
+                }
+                let ch = ConnectionHandle(op[1] as usize);
+                let ev = self.ep.handle_event(
+                    ch,
+                    EndpointEvent(EndpointEventInner::RetireConnectionId(
+                        now,
+                        op[2] as u64,
+                        op[3] != 0,
+                    )),
+                );
+                match ev.map(|e| e.0) {
+                    None => vec![0],
+                    Some(ConnectionEventInner::NewIdentifiers(ids, _)) => {
+                        let mut o = vec![1];
+                        for id in &ids {
+                            o.push(id.sequence as i128);
+                            cid_out(&mut o, &id.id);
+                        }
+                        o
+                    }
+                    _ => vec![-2],
+                }
+            }
+            7 if op.len() == 4 && op[1] >= 0 => {
+                let ch = ConnectionHandle(op[1] as usize);
+                let ev = self.ep.handle_event(
+                    ch,
+                    EndpointEvent(EndpointEventInner::ResetToken(
+                        remote(op[2]),
+                        ResetToken::from(token(op[3])),
+                    )),
+                );
+                vec![if ev.is_none() { 0 } else { -2 }]
+            }
+            8 if op.len() == 2 && op[1] >= 0 => {
+                let ch = ConnectionHandle(op[1] as usize);
+                let ev = self
+                    .ep
+                    .handle_event(ch, EndpointEvent(EndpointEventInner::Drained));
+                if let Some(c) = self.conns.get_mut(ch.0) {
+                    *c = None;
+                }
+                vec![if ev.is_none() { 0 } else { -2 }, self.ep.open_connections() as i128]
+            }
+            _ => vec![-1],
+        }
+    }
+}
+
+fn routing(ops: &Ops) -> Outs {
+    let mut sim: Option<Sim> = None;
+    let mut outs = Vec::new();
+    for op in ops {
+        if op.is_empty() {
+            outs.push(vec![-1]);
+            continue;
+        }
+        if op[0] == 0 {
+            if op.len() == 3 && (0..=20).contains(&op[1]) {
+                sim = Some(Sim::new(op[1] as usize, op[2] != 0));
+                outs.push(vec![0]);
+            } else {
+                outs.push(vec![-1]);
+            }
+            continue;
+        }
+        match sim.as_mut() {
+            Some(s) => {
+                let o = s.step(op);
+                s.unload();
+                outs.push(o);
+            }
+            None => outs.push(vec![-1]),
+        }
+    }
+    // Dropping a pending `Incoming` only logs a warning.
+    outs
+}
 
 /// Interpret `ops` for component `comp`; `None` if `comp` is not served by this module.
-pub(crate) fn run(_comp: &str, _ops: &Ops) -> Option<Outs> {
-    None
+pub(crate) fn run(comp: &str, ops: &Ops) -> Option<Outs> {
+    match comp {
+        "routing" => Some(routing(ops)),
+        _ => None,
+    }
 }
